@@ -76,6 +76,46 @@ func viaUnmarshal(r *rng, sc *Scenario, num, den int) {
 	}
 }
 
+// Rune inputs: a caller's []rune is read-only for the library and may be handed to several calls at once.
+// The run's rune inputs are therefore converted once, before the clients start, and every call on the same
+// text gets the same backing array; after the run they must still spell the text (run.go).
+type sharedRune struct {
+	text  string
+	runes []rune
+	orig  []rune // private copy to compare with after the run
+}
+
+var sharedRunes []sharedRune
+
+func runesOf(s string) []rune {
+	for i := range sharedRunes {
+		if sharedRunes[i].text == s {
+			return sharedRunes[i].runes
+		}
+	}
+	return []rune(s)
+}
+
+func shareRunes(sc *Scenario) {
+	sharedRunes = sharedRunes[:0]
+	seen := map[string]bool{}
+	add := func(s string) {
+		if !seen[s] && len(s) <= 1<<16 {
+			seen[s] = true
+			sharedRunes = append(sharedRunes, sharedRune{s, []rune(s), []rune(s)})
+		}
+	}
+	for _, cl := range sc.Clients {
+		for i := range cl.Ops {
+			switch cl.Ops[i].Kind {
+			case OpMatchRunes, OpFindRunes, OpFindRunesAt, OpFindAllRunes, OpWalkMixed, OpWalk2:
+				add(cl.Ops[i].In.Text())
+				add(cl.Ops[i].In2.Text())
+			}
+		}
+	}
+}
+
 // patterns a Regexp value held before UnmarshalText replaces it
 var usedPats = []string{`(\d+)-(\d+)`, `(a)|b`, `\w+`, `(?<n>x)+y`, `^(?:ab)*$`}
 
@@ -245,19 +285,19 @@ func execOp(re *regexp2.Regexp, op *Op, ctx *opCtx) (out string) {
 		ok, err := re.MatchString(in)
 		return orErr(fmt.Sprint(ok), err)
 	case OpMatchRunes:
-		ok, err := re.MatchRunes([]rune(in))
+		ok, err := re.MatchRunes(runesOf(in))
 		return orErr(fmt.Sprint(ok), err)
 	case OpFindString:
 		m, err := re.FindStringMatch(in)
 		return canonWalk(re, m, err, ctx, keepMatches, op.IdleNs)
 	case OpFindRunes:
-		m, err := re.FindRunesMatch([]rune(in))
+		m, err := re.FindRunesMatch(runesOf(in))
 		return canonWalk(re, m, err, ctx, keepMatches, op.IdleNs)
 	case OpFindStringAt:
 		m, err := re.FindStringMatchStartingAt(in, op.StartAt)
 		return canonWalk(re, m, err, ctx, keepMatches, op.IdleNs)
 	case OpFindRunesAt:
-		r := []rune(in)
+		r := runesOf(in)
 		at := op.StartAt
 		if at > len(r) {
 			at = len(r)
@@ -268,7 +308,7 @@ func execOp(re *regexp2.Regexp, op *Op, ctx *opCtx) (out string) {
 		r, err := re.FindAllStringIndex(in, op.N)
 		return orErr(fmt.Sprint(r), err)
 	case OpFindAllRunes:
-		r, err := re.FindAllRunesIndex([]rune(in), op.N)
+		r, err := re.FindAllRunesIndex(runesOf(in), op.N)
 		return orErr(fmt.Sprint(r), err)
 	case OpReplace:
 		r, err := re.Replace(in, op.Repl, -1, op.N)
@@ -354,7 +394,7 @@ func execOp(re *regexp2.Regexp, op *Op, ctx *opCtx) (out string) {
 		in2 := op.In2.Text()
 		m, err := re.FindStringMatch(in)
 		if op.N > 0 {
-			m, err = re.FindRunesMatch([]rune(in))
+			m, err = re.FindRunesMatch(runesOf(in))
 		}
 		var sb strings.Builder
 		for k := 0; k < maxWalk; k++ {
@@ -377,7 +417,7 @@ func execOp(re *regexp2.Regexp, op *Op, ctx *opCtx) (out string) {
 					ib.WriteString(fmt.Sprint(b))
 				case 1:
 					var o *regexp2.Match
-					o, err = re.FindRunesMatch([]rune(in2))
+					o, err = re.FindRunesMatch(runesOf(in2))
 					if err == nil && o != nil {
 						canonOne(&ib, o)
 						if o, err = re.FindNextMatch(o); err == nil && o != nil {
@@ -418,7 +458,7 @@ func execOp(re *regexp2.Regexp, op *Op, ctx *opCtx) (out string) {
 			return errClass(e1)
 		}
 		ctx.callStarts()
-		m2, e2 := re.FindRunesMatch([]rune(in2))
+		m2, e2 := re.FindRunesMatch(runesOf(in2))
 		if e2 != nil {
 			return errClass(e2)
 		}
